@@ -51,16 +51,20 @@ theorem mask_noninterference (bits b n size kxe rank : Nat) (xa : List Nat)
 
 /-- **GLWE ciphertexts**: other plaintext, other secret, other errors — same mask columns -/
 theorem glwe_mask_noninterference (bits b k n size kxe rank : Nat) (xa : List Nat)
-    (pt pt' : Option Col) (sk sk' : List Poly) (e e' : Poly) (ct ct' : Core.GLWE) (r r' : List Nat)
-    (h : Core.glweEncryptSkS bits b k n size kxe rank pt sk xa e = some (ct, r))
-    (h' : Core.glweEncryptSkS bits b k n size kxe rank pt' sk' xa e' = some (ct', r')) :
+    (pt pt' : Option Col) (ptB ptB' : Nat) (sk sk' : List Poly) (e e' : Poly) (ct ct' : Core.GLWE) (r r' : List Nat)
+    (h : Core.glweEncryptSkS bits b k n size kxe rank pt ptB sk xa e = some (ct, r))
+    (h' : Core.glweEncryptSkS bits b k n size kxe rank pt' ptB' sk' xa e' = some (ct', r')) :
     ct.cols.drop 1 = ct'.cols.drop 1 ∧ r = r' := by
   unfold Core.glweEncryptSkS at h h'
   split at h
   · simp at h
-  · split at h'
+  · split at h
+    · simp at h
+    split at h'
     · simp at h'
-    · cases hs : Core.encryptSkStream bits b n size kxe rank (pt.map (fun p => (p, 0))) sk xa e with
+    · split at h'
+      · simp at h'
+      cases hs : Core.encryptSkStream bits b n size kxe rank (pt.map (fun p => (p, 0))) sk xa e with
       | none => simp [hs] at h
       | some q =>
         cases hs' : Core.encryptSkStream bits b n size kxe rank (pt'.map (fun p => (p, 0))) sk' xa e' with
@@ -74,9 +78,9 @@ theorem glwe_mask_noninterference (bits b k n size kxe rank : Nat) (xa : List Na
           have := mask_noninterference bits b n size kxe rank xa _ _ sk sk' e e' bd bd' ms ms' rr rr' hs hs'
           simpa using this
 
-example : ((Core.glweEncryptSkS 64 3 6 2 2 5 1 (some [[1, 2]]) [[1, -1]] [9, 1, 7, 3, 5] [1, -1]).map (·.1.cols.drop 1)
-    = (Core.glweEncryptSkS 64 3 6 2 2 5 1 none [[0, 1]] [9, 1, 7, 3, 5] [2, 0]).map (·.1.cols.drop 1))
-    ∧ (Core.glweEncryptSkS 64 3 6 2 2 5 1 (some [[1, 2]]) [[1, -1]] [9, 1, 7, 3, 5] [1, -1]).isSome := by decide
+example : ((Core.glweEncryptSkS 64 3 6 2 2 5 1 (some [[1, 2]]) 3 [[1, -1]] [9, 1, 7, 3, 5] [1, -1]).map (·.1.cols.drop 1)
+    = (Core.glweEncryptSkS 64 3 6 2 2 5 1 none 0 [[0, 1]] [9, 1, 7, 3, 5] [2, 0]).map (·.1.cols.drop 1))
+    ∧ (Core.glweEncryptSkS 64 3 6 2 2 5 1 (some [[1, 2]]) 3 [[1, -1]] [9, 1, 7, 3, 5] [1, -1]).isSome := by decide
 
 /-- **changing the error seed changes only the body** (same plaintext, secret and mask stream) -/
 theorem body_only_error_seed (bits b n size kxe rank : Nat) (xa : List Nat) (pt : Option (Col × Nat)) (sk : List Poly) (e e' : Poly)
